@@ -186,16 +186,20 @@ func destroyMultIterator(it *MultIterator) {
 
 // SetReverse initializes iterator to run backward
 func (it *MultIterator) SetReverse() {
+	it.reverse = true
 	for _, f := range it.fitArr {
 		f.SetReverse()
 	}
+	it.Reset()
 }
 
 // SetForward initializes iterator to run forward
 func (it *MultIterator) SetForward() {
+	it.reverse = false
 	for _, f := range it.fitArr {
 		f.SetForward()
 	}
+	it.Reset()
 }
 
 //Start begins iteration
